@@ -50,6 +50,13 @@ TRUSTED_BASE = [
 ]
 
 
+import resource
+try:        # a changed implementation that allocates without bound fails with MemoryError instead of exhausting the machine
+    resource.setrlimit(resource.RLIMIT_AS, (12 << 30, 12 << 30))
+except (ValueError, OSError):
+    pass
+
+
 def log(*a):
     print(*a, flush=True)
 
